@@ -585,6 +585,19 @@ impl Client {
         }
     }
 
+    /// Verification hook: name of the current activation state
+    #[cfg(feature = "verif")]
+    pub fn verif_state(&self) -> &'static str {
+        match self.state {
+            ClientState::DemandActivePDU => "WaitDemandActive",
+            ClientState::SynchronizePDU => "WaitSync",
+            ClientState::ControlCooperate => "WaitCoop",
+            ClientState::ControlGranted => "WaitGranted",
+            ClientState::FontMap => "WaitFontMap",
+            ClientState::Data => "Active"
+        }
+    }
+
     /// Read demand Active payload
     /// This message is sent from server to client
     /// and inform about server capabilities
